@@ -15,7 +15,7 @@ entered before the panic. Reflect's conversions are modelled for the data Decomp
 produce; conversions Go performs in odd ways (a number into a string field …) answer `outside`
 (`Slot.outside`), they only arise when a foreign index is applied.
 
-The flag `bareName` carries the deviation from C16 that /repo 6d5fecb repaired: `false` is the code as
+The flag `bareName` carries the deviation from C16 that /repo 6d5fecb repaired (and, with it, the depth of the field walk, /repo a720b7c): `false` is the code as
 it is NOW, `true` the code before that commit. Now a composer found under a name — the bare name in
 `recomp`, the full name in `registerComposer` — is used only when it was made for this very type
 (`c.rtype == rv.Type()`, here `typeBeq`); otherwise the type is registered, which replaces
@@ -163,20 +163,35 @@ structure RegOut where
   panicked : Bool
   deriving Inhabited
 
+/-- since /repo a720b7c the walk follows containers of containers (`[][]T`, `map[string][]T`, `*[2]T`)
+down to the element type -/
+def elemAll : GoType → GoType
+  | .slice e => elemAll e
+  | .array _ e => elemAll e
+  | .map e => elemAll e
+  | .ptr e => elemAll e
+  | .bytes => .int 6
+  | t => t
+
+/-- the type the field walk looks at: `deep` = the code as it is now (a720b7c), else one level -/
+def walkElem (deep : Bool) (t : GoType) : GoType := if deep then elemAll t else elem1 t
+
 /-- the field walk of `registerComposer` -/
-def regFields (reg1 : Registry → GoType → RegOut) : Registry → List (FieldHdr × GoType) → Registry × Bool
+def regFields (deep : Bool) (reg1 : Registry → GoType → RegOut) : Registry → List (FieldHdr × GoType) → Registry × Bool
   | r, [] => (r, false)
   | r, (h, t) :: rest =>
-    if regSkip h.name then regFields reg1 r rest
-    else if (r.find (nameOf (elem1 t))).isSome then regFields reg1 r rest
+    if regSkip h.name then regFields deep reg1 r rest
+    else if (r.find (nameOf (walkElem deep t))).isSome then regFields deep reg1 r rest
     else
-      match reg1 r (elem1 t) with
+      match reg1 r (walkElem deep t) with
       | ⟨r', _, true⟩ => (r', true)
-      | ⟨r', _, false⟩ => regFields reg1 r' rest
+      | ⟨r', _, false⟩ => regFields deep reg1 r' rest
 
 /-- `registerComposer(rt, nil)`; errors ("only structs can be recomposed") change nothing.
-`guard` is the repair: a composer found under the full name is only reused when it was made for
-this very type (struct literals all have the full name "/"). `walk` registers the type of a field
+`guard` is the code as it is now: a composer found under the full name is only reused when it was
+made for this very type (struct literals all have the full name "/"; /repo 6d5fecb), and the field
+walk unwraps containers completely (/repo a720b7c); `guard = false` is the code before both
+(the trees between the two commits are not modelled). `walk` registers the type of a field
 (the recursive call; `none`: out of fuel, the walk is skipped). -/
 def registerCore (guard : Bool) (walk : Option (Registry → GoType → RegOut)) (r : Registry) (t : GoType) : RegOut :=
   match derefT t with
@@ -193,7 +208,7 @@ def registerCore (guard : Bool) (walk : Option (Registry → GoType → RegOut))
               ⟨name, fullName name pkg, .struct name pkg fs, im⟩,
             some ⟨name, fullName name pkg, .struct name pkg fs, im⟩, false⟩
         | some w =>
-          match regFields w
+          match regFields guard w
               ((r.set name ⟨name, fullName name pkg, .struct name pkg fs, im⟩).set (fullName name pkg)
                 ⟨name, fullName name pkg, .struct name pkg fs, im⟩)
               fs.reverse with
